@@ -38,9 +38,10 @@ def result(name, status, **kw):
 class Queries:
     """Runs each query on both solvers; they must agree and neither may print `(error`."""
 
-    def __init__(self, logdir, prefix):
+    def __init__(self, logdir, prefix, keep_unsat=True):
         self.logdir = logdir
         self.prefix = prefix
+        self.keep_unsat = keep_unsat
         self.n = 0
         self.solver_s = 0.0
         self.log = []
@@ -70,6 +71,13 @@ class Queries:
         vals = list(answers.values())
         if vals[0] != vals[1] or vals[0] not in ("sat", "unsat"):
             return "inconclusive", answers, model, path
+        if vals[0] == "unsat" and not self.keep_unsat:
+            # thousands of discharged queries per run: keep only the ones that matter (sat / inconclusive), and one sample
+            if self.n > 2:
+                try:
+                    os.remove(path)
+                except OSError:
+                    pass
         return vals[0], answers, model, path
 
 
